@@ -37,9 +37,13 @@ pub fn gen(rng: &mut Rng, tier: Tier, idx: u64) -> Case {
     if idx % 8 == 0 {
         sw.types = vec![all[(idx / 8) as usize % all.len()]];
     }
+    if tier != Tier::Thorough {
+        sw.max_frame = 16_384 + 16;
+    }
     let mut c = Case::new("C14", "c14-faults", sw.fam, Front::P);
     let mut a = gen::gen_packet(rng, &sw);
     maybe_retarget(rng, &sw, &mut a, 400);
+    gen::maybe_retarget_props(rng, sw.fam, &mut a, 40);
     let len = refcodec::ref_body_len(&a, sw.fam) + 5;
     c.packets = vec![a];
     let pp = *rng.pick(&[0u64, 0, 200]);
